@@ -15,6 +15,7 @@
  */
 
 #include <unifex/detail/atomic_intrusive_list.hpp>
+#include <unifex/detail/verif_hooks.hpp>
 
 namespace unifex {
 
@@ -36,9 +37,11 @@ uintptr_t to_value(node* p) noexcept {
 // ---- Lock helpers (non-template) ----
 
 uintptr_t atomic_intrusive_list_link_ops::lock(link& lk) noexcept {
+  UNIFEX_VERIF_YIELD("mutex.l.lock");
   uintptr_t val = lk.load(std::memory_order_relaxed);
   while (true) {
     while (val & lock_bit) {
+      UNIFEX_VERIF_SPIN("mutex.l.lock.spin");
       val = lk.load(std::memory_order_relaxed);
     }
     if (lk.compare_exchange_weak(
@@ -57,12 +60,14 @@ bool atomic_intrusive_list_link_ops::try_lock_checking(
     link* expected,
     uintptr_t& head_val) noexcept {
   {
+    UNIFEX_VERIF_YIELD("mutex.l.tlc.a");
     link* cur = monitored.load(std::memory_order_acquire);
     if (cur != expected) {
       return false;
     }
   }
 
+  UNIFEX_VERIF_YIELD("mutex.l.tlc.b");
   uintptr_t val = lk.load(std::memory_order_relaxed);
   while (true) {
     if (val & lock_bit) {
@@ -70,6 +75,7 @@ bool atomic_intrusive_list_link_ops::try_lock_checking(
       if (cur != expected) {
         return false;
       }
+      UNIFEX_VERIF_SPIN("mutex.l.tlc.spin");
       val = lk.load(std::memory_order_relaxed);
       continue;
     }
@@ -79,11 +85,13 @@ bool atomic_intrusive_list_link_ops::try_lock_checking(
     // sequenced before that release visible.
     std::atomic_thread_fence(std::memory_order_acquire);
 
+    UNIFEX_VERIF_YIELD("mutex.l.tlc.c");
     link* cur = monitored.load(std::memory_order_acquire);
     if (cur != expected) {
       return false;
     }
 
+    UNIFEX_VERIF_YIELD("mutex.l.tlc.d");
     if (lk.compare_exchange_weak(
             val,
             val | lock_bit,
@@ -142,6 +150,7 @@ void atomic_intrusive_list_impl<Latch>::push_back_impl(node* item) noexcept {
   item->rest.store(to_value(&sentinel_), std::memory_order_relaxed);
 
   while (true) {
+    UNIFEX_VERIF_YIELD("mutex.l.pb1");
     link* pred_link = sentinel_.self.load(std::memory_order_acquire);
 
     uintptr_t pred_val;
@@ -150,9 +159,12 @@ void atomic_intrusive_list_impl<Latch>::push_back_impl(node* item) noexcept {
     }
     UNIFEX_ASSERT(pred_val == to_value(&sentinel_));
 
+    UNIFEX_VERIF_YIELD("mutex.l.pb3");
     item->self.store(pred_link, std::memory_order_release);
+    UNIFEX_VERIF_YIELD("mutex.l.pb4");
     sentinel_.self.store(&item->rest, std::memory_order_release);
 
+    UNIFEX_VERIF_YIELD("mutex.l.pb5");
     unlock(*pred_link, to_value(item));
     return;
   }
@@ -172,10 +184,14 @@ node* atomic_intrusive_list_impl<Latch>::pop_front_impl() noexcept {
   node* second = to_node(rest_val);
   UNIFEX_ASSERT(second != nullptr);
 
+  UNIFEX_VERIF_YIELD("mutex.l.pf4");
   second->self.store(&head_, std::memory_order_release);
+  UNIFEX_VERIF_YIELD("mutex.l.pf5");
   first->self.store(nullptr, std::memory_order_relaxed);
 
+  UNIFEX_VERIF_YIELD("mutex.l.pf6");
   unlock(head_, rest_val);
+  UNIFEX_VERIF_YIELD("mutex.l.pf7");
   unlock(first->rest, 0);
   return first;
 }
@@ -185,6 +201,7 @@ bool atomic_intrusive_list_impl<Latch>::try_remove_impl(node* item) noexcept {
   UNIFEX_ASSERT(item != nullptr);
 
   while (true) {
+    UNIFEX_VERIF_YIELD("mutex.l.tr1");
     link* head_ptr = item->self.load(std::memory_order_acquire);
     if (!head_ptr) {
       return false;
@@ -195,6 +212,7 @@ bool atomic_intrusive_list_impl<Latch>::try_remove_impl(node* item) noexcept {
       continue;
     }
 
+    UNIFEX_VERIF_YIELD("mutex.l.tr3");
     link* cur_self = item->self.load(std::memory_order_acquire);
     if (cur_self != head_ptr) {
       unlock(*head_ptr, head_val);
@@ -209,10 +227,14 @@ bool atomic_intrusive_list_impl<Latch>::try_remove_impl(node* item) noexcept {
     node* successor = to_node(rest_val);
     UNIFEX_ASSERT(successor != nullptr);
 
+    UNIFEX_VERIF_YIELD("mutex.l.tr5");
     successor->self.store(head_ptr, std::memory_order_release);
+    UNIFEX_VERIF_YIELD("mutex.l.tr6");
     item->self.store(nullptr, std::memory_order_relaxed);
 
+    UNIFEX_VERIF_YIELD("mutex.l.tr7");
     unlock(*head_ptr, rest_val);
+    UNIFEX_VERIF_YIELD("mutex.l.tr8");
     unlock(item->rest, 0);
     return true;
   }
